@@ -17,6 +17,9 @@ RULE = (
     "mode - options first and unchanged, ids within table size, references to defined slots, zero-delta rules, complete "
     "first statement and quoted triples, row kinds vs physical type, graph bracketing, namespace rows only with version 2 - "
     "and R's decoding equals the input (sequence for statement sequences, set for rdflib containers). "
+    "Plus a Hypothesis rule-based state machine over the public Stream API (enroll / triple / quad / graph with 0..3 triples / "
+    "namespace_declaration / manual flush of the flow, inferred, manual and bounded flows, both term encoders): after EVERY call "
+    "the bytes written so far must be a valid prefix for R and decode to the events accepted so far. "
     "non-trivial = >=2 statements and the stream has an explicit non-zero entry id (post-eviction) or uses a zero form "
     "for prefix / name / entry id together with >=2 frames or an elision; distinct by case hash."
 )
@@ -128,11 +131,16 @@ def body(case, acc):
 
 
 def check_case(case):
+    if case.get("kind") == "api":
+        return replay_api_history(case)
     return body(case, None)
 
 
 def run_shard(spec) -> Acc:
     acc = Acc()
+    if spec.get("part") == "api":
+        machine_shard(spec, acc)
+        return acc
     hyp_search(case_strategy(), body, acc, seed=spec["seed"] * 1000 + spec["shard"],
                max_examples=spec["n"], known=set(spec["known"]))
     return acc
@@ -140,4 +148,175 @@ def run_shard(spec) -> Acc:
 
 def plan(tier, seed):
     n = 400 if tier == "quick" else 6000
-    return [{"shard": i, "n": n} for i in range(16)]
+    specs = [{"shard": i, "n": n} for i in range(13)]
+    specs += [{"part": "api", "shard": 300 + i, "n": 120 if tier == "quick" else 3000, "steps": 12 if tier == "quick" else 30}
+              for i in range(3)]
+    return specs
+
+
+# ------------------------------------------------------------- API-history state machine
+MACHINE_IRIS = ["http://ex.org/a", "http://ex.org/b#c", "x", "http://ex.org/ns2/d", "urn:u:e", "", "http://ex.org/a/f",
+                "http://ü.example/ł/g", "http://ex.org/ns3/h", "http://ex.org/ns4/i"]
+MACHINE_LITS = [["lit", "v", None, None], ["lit", "1", None, "http://www.w3.org/2001/XMLSchema#integer"],
+                ["lit", "hi", "en", None], ["lit", "", None, None], ["lit", "s", None, T.XSD_STRING]]
+MACHINE_BN = [["bnode", "b0"], ["bnode", "b1"]]
+
+
+def machine_term(code, graph=False):
+    kind, i = code
+    if kind == 0:
+        return ["iri", MACHINE_IRIS[i % len(MACHINE_IRIS)]]
+    if kind == 1:
+        return MACHINE_BN[i % 2]
+    if kind == 2 and graph:
+        return ["default"]
+    if kind == 2:
+        return MACHINE_LITS[i % len(MACHINE_LITS)]
+    return ["iri", MACHINE_IRIS[i % 3]]
+
+
+def replay_api_history(case, acc=None):
+    """Drive the public Stream API with a recorded history of calls; after every call the bytes written so far must be a
+    valid prefix for the reference decoder and decode to the events accepted so far."""
+    import io as _io
+
+    from pyjelly.serialize.ioutils import write_delimited
+
+    integ = case["integration"]
+    cfg = {"phys": case["phys"], "logical": case["logical"], "delimited": True, "frame_size": case["frame_size"],
+           "flow": case["flow"], "preset": case["preset"],
+           "params": {"generalized": True, "rdf_star": True, "stream_name": "", "namespace_declarations": case["ns"]}}
+    from vlib import pyj
+
+    stream = pyj.make_stream(cfg, integ)
+    out = _io.BytesIO()
+    model = []
+    conv = T.to_generic if integ == "generic" else T.to_rdflib
+    canon = (lambda t: list(T.norm(t))) if integ == "generic" else (lambda t: list(T.norm(T.rdflib_canon(t))))
+    flushed_all = True
+
+    def emit(f):
+        if f is not None:
+            write_delimited(f, out)
+
+    for step, op in enumerate(case["ops"]):
+        kind = op[0]
+        try:
+            if kind == "enroll":
+                stream.enroll()
+            elif kind == "stmt":
+                stream.enroll()
+                terms = [machine_term(c, graph=(j == 3)) for j, c in enumerate(op[1])]
+                if integ == "rdflib":  # RDF 1.1 positions only
+                    if terms[0][0] == "lit":
+                        terms[0] = ["iri", MACHINE_IRIS[0]]
+                    if terms[1][0] != "iri":
+                        terms[1] = ["iri", MACHINE_IRIS[1]]
+                    if len(terms) > 3 and terms[3] == ["iri", ""]:
+                        terms[3] = ["default"]
+                if case["phys"] == "TRIPLES":
+                    emit(stream.triple(tuple(conv(t) for t in terms[:3])))
+                    model.append([canon(t) for t in terms[:3]])
+                elif case["phys"] == "QUADS":
+                    emit(stream.quad(tuple(conv(t) for t in terms)))
+                    model.append([canon(t) for t in terms])
+                else:
+                    n = op[2]
+                    triples = [tuple(conv(t) for t in terms[:3])] * n
+                    for f in stream.graph(conv(terms[3]), triples):
+                        emit(f)
+                    model.extend([[canon(t) for t in terms]] * n)
+            elif kind == "ns":
+                if case["ns"]:
+                    stream.enroll()
+                    iri = MACHINE_IRIS[op[2] % len(MACHINE_IRIS)]
+                    stream.namespace_declaration(op[1], iri)
+                    model.append(["prefix", op[1], ["iri", iri]])
+            elif kind == "flush":
+                emit(stream.flow.to_stream_frame())
+        except Exception as exc:  # noqa: BLE001
+            return Violation(f"C03:api-call-raises:{type(exc).__name__}", f"step {step} {op!r} raised {exc!r}", case)
+        data = out.getvalue()
+        if not data:
+            continue
+        res = jellyref.decode(data, True, mode="prefix" if case["ns"] else "prefix")
+        if res.error is not None:
+            return Violation(f"C03:invalid:{res.error.kind}", f"after step {step} {op!r} the bytes written are invalid: {res.error}", case)
+        got = []
+        for e in res.events:
+            got.append(["prefix", e[1], list(e[2])] if e[0] == "prefix" else [list(T.norm(t)) for t in e])
+        if got != model[:len(got)]:
+            return Violation("C03:decodes-differently", f"after step {step} {op!r}: R decodes {got[-1:]!r} where the accepted "
+                             f"history has {model[len(got) - 1:len(got)]!r}", case)
+        if kind == "flush" and len(stream.flow) == 0 and len(got) != len(model):
+            return Violation("C03:decodes-differently", f"after a full flush {len(got)} events are on the wire, {len(model)} were accepted", case)
+    if acc is not None:
+        acc.case(case, len(model) >= 3 and any(o[0] == "flush" for o in case["ops"]), ["api_history", "api_" + case["phys"],
+                                                                                         "api_flow_" + str(case["flow"])])
+    return None
+
+
+def machine_shard(spec, acc):
+    import hypothesis
+    from hypothesis import HealthCheck, Phase, settings
+    from hypothesis.stateful import RuleBasedStateMachine, initialize, rule, run_state_machine_as_test
+
+    from vlib.harness import shard_seed
+
+    found = {}
+    known = set(spec["known"])
+    code = st.tuples(st.integers(0, 3), st.integers(0, 9))
+
+    class Api(RuleBasedStateMachine):
+        def __init__(self):
+            super().__init__()
+            self.case = None
+
+        @initialize(integration=st.sampled_from(["generic", "rdflib"]), phys=st.sampled_from(["TRIPLES", "QUADS", "GRAPHS"]),
+                    flow=st.sampled_from([None, "ManualFrameFlow:lt", "BoundedFrameFlow:lt"]),
+                    fs=st.sampled_from([1, 2, 3, 5, 250]), ns=st.booleans(),
+                    preset=st.sampled_from([[8, 0, 4], [8, 4, 4], [9, 5, 2], [16, 8, 8], [4000, 150, 32]]))
+        def setup(self, integration, phys, flow, fs, ns, preset):
+            self.case = {"kind": "api", "integration": integration, "phys": phys, "logical": 1 if phys == "TRIPLES" else 2,
+                         "flow": flow, "frame_size": fs, "ns": ns, "preset": preset, "ops": []}
+
+        def _do(self, op):
+            self.case["ops"].append(op)
+            v = replay_api_history(self.case)
+            if v is not None and v.signature not in known:
+                found["v"] = v
+                raise v
+
+        @rule(terms=st.lists(code, min_size=4, max_size=4), n=st.integers(0, 3))
+        def statement(self, terms, n):
+            self._do(["stmt", [list(t) for t in terms], n])
+
+        @rule(name=st.sampled_from(["", "ex", "a"]), i=st.integers(0, 9))
+        def namespace(self, name, i):
+            self._do(["ns", name, i])
+
+        @rule()
+        def flush(self):
+            self._do(["flush"])
+
+        @rule()
+        def enroll(self):
+            self._do(["enroll"])
+
+        def teardown(self):
+            if self.case is not None and self.case["ops"]:
+                replay_api_history(self.case, acc)
+
+    sett = settings(max_examples=spec["n"], stateful_step_count=spec.get("steps", 12), deadline=None, database=None,
+                    report_multiple_bugs=False, print_blob=False, phases=(Phase.generate, Phase.shrink),
+                    suppress_health_check=list(HealthCheck))
+    machine = hypothesis.seed(shard_seed(spec["seed"], spec["shard"], "api"))(Api)
+    try:
+        run_state_machine_as_test(machine, settings=sett)
+    except Violation:
+        pass
+    except BaseException:
+        if "v" not in found:
+            raise
+    if "v" in found:
+        acc.violations.append(found["v"].to_json())
